@@ -388,6 +388,9 @@ def run(cx):
     # 5. directed: a failing module that augments AND deviates two implemented targets (one of them an import only before)
     rng = cx.sub_rng("amend2")
     run_batch(cx, [cc.gen_amend2_history(rng) for _ in range(cx.n(300, 8000))], "b")
+    # 6. directed: a newer revision refused between the latest-revision decision and its registration for rollback
+    rng = cx.sub_rng("latestwin")
+    run_batch(cx, [cc.gen_latest_window_history(rng) for _ in range(cx.n(180, 6000))], "l")
     cx.sample(hs[0].spec()[:400])
     cx.exhaustive = False
 
